@@ -124,6 +124,24 @@ theorem reachable_WInv : Obl.reachable_WInv := reachable_WInv_of_pieces pieces
     channel reports — **holds in every such world**. -/
 theorem reachable_InvPlus : Obl.reachable_InvPlus := reachable_InvPlus_of_pieces pieces execPieces
 
+/-- **one operation, from ANY world satisfying the invariants** (not only reachable ones): a valid operation started in a
+    quiescent world satisfying `WInv` and the two auxiliary registry facts (`CompIdInv`, `TevTyped`) ends, on normal
+    return, in such a world again; if it ends in a panic (a documented panic of the library, or a panicking handler), the
+    world still satisfies every structural group of the invariant with SOME consistent reservation state (`WInvMid`;
+    reservations may stay pending: finding F8) and the event queue is empty (except for the model's own fuel marker). -/
+theorem execOp_keeps_invariant (op : Op) (h : op.Valid) :
+    Hoare (GQA AuxInv) (execOp op) (fun _ => GQA AuxInv) fun e w =>
+      e.isPanic = true → Guarded (fun w => WInvMid w ∧ AuxInv w ∧ (e ≠ Err.panic "model:fuel" → w.queue = [])) w :=
+  execOp_keeps_WInv_of_pieces pieces op h
+
+/-- the same for the driver's `step` and the executable invariant -/
+theorem step_keeps_InvPlus_final (w : World) (op : Op) (hw : WInv w) (hq : Quiescent w)
+    (ha : InvV7.CompIdInv w ∧ InvV7.TevTyped w) (hv : op.Valid) (hok : StepOk w op) (hs : Small (step w op).fst) :
+    (step w op).fst.InvPlus = true :=
+  step_keeps_InvPlus_of_pieces pieces execPieces w op hw hq ha hv hok hs
+
+#print axioms execOp_keeps_invariant
+#print axioms step_keeps_InvPlus_final
 #print axioms reachable_WInv
 #print axioms reachable_InvPlus
 
